@@ -1,8 +1,8 @@
 ---------------------------- MODULE JudgeNumeric ----------------------------
 (***************************************************************************)
-(* Judge for property C07 at the real width: Numeric.tla instantiated with *)
-(* B = 16, L = 16 (64-bit words as 16 nibbles), 7-bit term bytes, shift    *)
-(* byte 0x20, binary64 floats (11 exponent bits).                          *)
+(* Judge for property C07 at the real width: Numeric.tla with B = 16,      *)
+(* L = 16 (64-bit words as 16 nibbles), 7-bit term bytes, shift byte 0x20, *)
+(* binary64 floats (11 exponent bits).                                     *)
 (*                                                                         *)
 (* Every line of the ndjson file is one record produced by the real bleve  *)
 (* code (harness/internal/c07).  64-bit words arrive as arrays of 16       *)
@@ -26,9 +26,10 @@
 (* violated one); the *Agrees invariants compare with the transcription    *)
 (* bit by bit and alone only indicate loss of conformance.                 *)
 (***************************************************************************)
-EXTENDS Naturals, Sequences, FiniteSets, TLC, IOUtils, Json
-
-N == INSTANCE Numeric WITH B <- 16, L <- 16, G <- 7, ShiftStart <- 32, FE <- 11
+(* The module EXTENDS Numeric (constants bound in the cfg: B = 16, L = 16,  *)
+(* G = 7, ShiftStart = 32, FE = 11) rather than instantiating it, so that  *)
+(* TLC evaluates the derived constants (DB, W, chunk sizes) once.          *)
+EXTENDS Numeric, TLC, IOUtils, Json
 
 Trace == ndJsonDeserialize(IOEnv.VERIF_TRACE)
 
@@ -43,25 +44,25 @@ R == Trace[l]
 -----------------------------------------------------------------------------
 (* split *)
 RangeWF(p) ==
-  /\ N!ValidTerm(p[1]) /\ N!ValidTerm(p[2])
-  /\ N!TermShift(p[1]) = N!TermShift(p[2])
-  /\ N!TermShift(p[1]) % 4 = 0
+  /\ ValidTerm(p[1]) /\ ValidTerm(p[2])
+  /\ TermShift(p[1]) = TermShift(p[2])
+  /\ TermShift(p[1]) % 4 = 0
 Decoded(p) ==
-  LET k == N!TermShift(p[1]) \div 4
-  IN [k |-> k, lo |-> N!DecodeTerm(p[1]), hi |-> N!FillLow(N!DecodeTerm(p[2]), k)]
+  LET k == TermShift(p[1]) \div 4
+  IN [k |-> k, lo |-> DecodeTermD(p[1]), hi |-> FillLow(DecodeTermD(p[2]), k)]
 
 SplitWellFormed == Is("split") => \A i \in 1..Len(R.ranges) : RangeWF(R.ranges[i])
 (* the emitted term ranges are pairwise disjoint and cover exactly [min,max] *)
 SplitCover ==
   Is("split") /\ (\A i \in 1..Len(R.ranges) : RangeWF(R.ranges[i])) =>
-     N!ChainCover([i \in 1..Len(R.ranges) |-> Decoded(R.ranges[i])], R.min, R.max)
+     ChainCover([i \in 1..Len(R.ranges) |-> Decoded(R.ranges[i])], R.min, R.max)
 (* ... and are term for term what the transcription computes *)
 SplitAgrees ==
   Is("split") =>
-     LET s == N!Split(R.min, R.max)
+     LET s == Split(R.min, R.max)
      IN /\ Len(s) = Len(R.ranges)
-        /\ \A i \in 1..Len(s) : /\ R.ranges[i][1] = N!RngStart(s[i])
-                                /\ R.ranges[i][2] = N!RngEnd(s[i])
+        /\ \A i \in 1..Len(s) : /\ R.ranges[i][1] = RngStart(s[i])
+                                /\ R.ranges[i][2] = RngEnd(s[i])
 
 (* "terminates": termRange.Enumerate walks every emitted range byte string *)
 (* by byte string; a query is answered in reasonable time only if that walk *)
@@ -69,30 +70,30 @@ SplitAgrees ==
 EnumLimit == 1048576
 SplitEnumBounded ==
   Is("split") /\ (\A i \in 1..Len(R.ranges) : RangeWF(R.ranges[i])) =>
-     \A i \in 1..Len(R.ranges) : N!EnumWithin(R.ranges[i][1], R.ranges[i][2], EnumLimit)
+     \A i \in 1..Len(R.ranges) : EnumWithin(R.ranges[i][1], R.ranges[i][2], EnumLimit)
 
 -----------------------------------------------------------------------------
 (* float <-> sortable int64, prefix coding *)
-FloatOrderModel == Is("float") => (R.lt <=> N!FloatLess(R.a, R.b))
+FloatOrderModel == Is("float") => (R.lt <=> FloatLess(R.a, R.b))
 FloatInverse    == Is("float") => R.ra = R.a
-FloatMonotone   == Is("float") /\ R.lt => N!SLess(R.ia, R.ib) /\ N!BytesLess(R.ta, R.tb)
-FloatDigitsModel == Is("float") => (N!FloatLessD(R.a, R.b) <=> N!FloatLess(R.a, R.b))
-FloatAgrees     == Is("float") => /\ R.ia = N!FloatToSortable(R.a)
-                                  /\ R.ib = N!FloatToSortable(R.b)
-                                  /\ R.ta = N!PrefixCode(R.ia, 0)
+FloatMonotone   == Is("float") /\ R.lt => SLess(R.ia, R.ib) /\ BytesLess(R.ta, R.tb)
+FloatDigitsModel == Is("float") => (FloatLessD(R.a, R.b) <=> FloatLess(R.a, R.b))
+FloatAgrees     == Is("float") => /\ R.ia = FloatToSortable(R.a)
+                                  /\ R.ib = FloatToSortable(R.b)
+                                  /\ R.ta = PrefixCode(R.ia, 0)
 
 PrefixDecode == Is("prefix") => /\ R.valid
                                 /\ R.sh = R.shift
-                                /\ R.dec = N!TruncBits(R.v, R.shift)
-PrefixAgrees == Is("prefix") => R.t = N!PrefixCode(R.v, R.shift)
+                                /\ R.dec = TruncBits(R.v, R.shift)
+PrefixAgrees == Is("prefix") => R.t = PrefixCode(R.v, R.shift)
 
 -----------------------------------------------------------------------------
 (* end to end: range queries and sort on real indexes *)
 NCorpus == 8       \* corpus records are the first lines of the file
 Corpus(id) == Trace[CHOOSE i \in 1..NCorpus : Trace[i].kind = "corpus" /\ Trace[i].id = id]
 
-Less(typ, x, y) == IF typ = "num" THEN N!FloatLessD(x, y) ELSE N!SLess(x, y)
-Leq(typ, x, y)  == IF typ = "num" THEN N!FloatLeqD(x, y)  ELSE N!SLeq(x, y)
+Less(typ, x, y) == IF typ = "num" THEN FloatLessD(x, y) ELSE SLess(x, y)
+Leq(typ, x, y)  == IF typ = "num" THEN FloatLeqD(x, y)  ELSE SLeq(x, y)
 
 (* nil inclusive flags default to: min inclusive, max exclusive.  An open   *)
 (* end of a numeric range is the infinity of that side with its flag; an    *)
